@@ -92,6 +92,8 @@ IMPURE_METHODS = {
     "choice", "uniform", "normal", "random", "standard_normal", "integers", "permutation",
     "shuffle", "rsample", "rsample_and_log_prob", "randn", "rand", "randperm", "multivariate_normal",
     "exponential", "gamma", "beta", "poisson", "binomial", "bytes",
+    # proposal draws (stateful torch RNG / key advanced on the flow object)
+    "sample_and_log_prob", "sample",
 }
 MAX_INLINE_STMTS = 60
 # dtype / device plumbing: irrelevant to values, never inlined
@@ -895,6 +897,11 @@ class Frame:
                         return v
                 return args[1] if len(args) > 1 else T.NONE
         # value methods
+        if attr == "array_to_namespace" and args:
+            # BaseSamples.array_to_namespace on a receiver of unknown class:
+            # value-preserving conversion of its argument
+            self._event(f"method:{attr}", [recv] + list(args), kwargs, e, recv, pure=True)
+            return args[0]
         if attr in TRANSPARENT_METHODS:
             self._event(f"method:{attr}", [recv] + list(args), kwargs, e, recv, pure=True)
             return recv
